@@ -11,7 +11,7 @@ view and raw row counts.
 import json
 import math
 
-from .. import core, kernel, world as W
+from .. import core, kernel, runfam, world as W
 from ..decisions import Decisions
 
 PID = 'C10'
@@ -437,6 +437,12 @@ def _run(D):
         if type(e).__module__.startswith('nlopt'):
             # raised by the optimiser library itself (nlopt.RoundoffLimited): the run did not finish, nothing to compare
             ctx.probe('optimizer_stopped_with_exception')
+        elif isinstance(e, (TypeError, ArithmeticError, ValueError)) and runfam.overshoot(w):
+            # observation O5 (DESIGN.md 8), the rule of runfam.judge_abort: a design sampled onto a coarse precision grid may
+            # exceed a bound by less than half the precision (legal), SBX / PM of such a parent can raise and the run dies; no
+            # listed property promises a result there and C10 speaks of runs that finish
+            ctx.outcome = 'sut_abort'
+            ctx.probe('o5_precision_overshoot_crash')
         else:
             ctx.violation('unexpected_exception', site, 'run with a store raised %r' % (e,))
     finally:
